@@ -96,6 +96,12 @@ func genCluster(c *Ctx) error {
 		// former primary with unreplicated writes: ahead, same TXID other checksum, behind
 		{"n2", "tx", "tx", "net 1 off", "tx", "tx", "elect 1", "tx"},
 		{"n2", "tx", "tx", "net 1 off", "tx", "elect 1", "tx", "net 0 off", "tx", "tx", "net 0 on"},
+		// ... and exactly level: the old primary (one unreplicated transaction) is cut off while the new
+		// primary commits one transaction of its own, then rejoins while the new primary is idle —
+		// same TXID, other checksum, nothing in flight that would expose the difference
+		// (`tx1` = exactly one committed transaction, so that both sides advance by the same count)
+		{"n2", "tx", "tx", "net 1 off", "tx1", "net 0 off", "elect 1", "tx1", "net 0 on"},
+		{"n2", "tx", "net 1 off", "tx1", "tx1", "net 0 off", "elect 1", "tx1", "tx1", "net 0 on"},
 		{"n3", "tx", "net 1 off", "net 2 off", "tx", "tx", "elect 1", "tx", "tx", "tx", "net 2 on", "retain", "net 0 off", "tx", "net 0 on"},
 		// replica behind a retention cut
 		{"n2", "tx", "tx", "net 1 off", "tx", "tx", "tx", "retain", "net 1 on", "tx"},
@@ -235,7 +241,20 @@ func genCluster(c *Ctx) error {
 				if len(f) > 1 {
 					arg = int(f[1][0] - '0')
 				}
-				k = map[string]int{"tx": 0, "net": 10, "retain": 12, "elect": 14, "restart": 16}[f[0]]
+				k = map[string]int{"tx": 0, "tx1": 0, "net": 10, "retain": 12, "elect": 14, "restart": 16}[f[0]]
+				if f[0] == "tx1" {
+					// exactly one plain committed transaction in the database's current journal mode
+					sh := P.p.randomShape(3)
+					if P.p.wal {
+						P.p.walTx(sh, false, false, false)
+					} else {
+						P.p.journalTx(sh, 0, 0)
+					}
+					commits++
+					sig.WriteString(",tx1")
+					observe(what)
+					continue
+				}
 			}
 			choose := func() int {
 				if arg >= 0 {
@@ -255,8 +274,8 @@ func genCluster(c *Ctx) error {
 				sig.WriteString("," + s)
 			case k < 12: // a replica loses / regains its connection
 				x := choose()
-				if x == primary || !nodes[x].up {
-					continue
+				if (x == primary && script == nil) || !nodes[x].up {
+					continue // (a script may cut the primary off in advance of its demotion)
 				}
 				nodes[x].net = !nodes[x].net
 				do(fmt.Sprintf("net %d %s", x, map[bool]string{true: "on", false: "off"}[nodes[x].net]))
